@@ -706,6 +706,9 @@ def network(profile="exact", max_ops=6, dtypes=("int8", "int8", "int8", "uint8",
                                              [1, small, 1, big_n], [1, 2, big_n // 2, small]]))
             if int(math.prod(in_shape)) > 300000:
                 in_shape = [d_ if d_ != small else 1 for d_ in in_shape]
+        if profile == "head":
+            # classifier heads: a 1x1 feature map (what is left after global pooling) under 1x1 convolutions (rewritten to fully connected operators) and FC layers
+            in_shape = [1, 1, 1, draw(st.one_of(st.integers(1, 40), st.sampled_from([16, 17, 32, 64, 128])))]
         x = nb.t("input", in_shape, dt, q[0], q[1])
         nb.inputs.append(x)
         cur = x
@@ -837,6 +840,9 @@ def network(profile="exact", max_ops=6, dtypes=("int8", "int8", "int8", "uint8",
         if profile == "luts":  # many table-driven activations in one NPU subgraph: LUT slot allocation, eviction and re-use (tables repeat because quantisations repeat)
             menu = ["logistic", "tanh", "hswish", "lrelu", "logistic", "tanh", "hswish", "lrelu", "add_const", "relu", "conv", "softmax", "softmax", "softmax", "exp", "gelu", "sqrt", "log", "rsqrt"]
             n_ops = draw(st.integers(4, max(max_ops, 4)))
+        if profile == "head":
+            menu = ["conv", "conv", "conv", "fc", "relu", "add_const"]
+            n_ops = draw(st.integers(1, 3))
         if profile == "tall":
             menu = ["mean", "mean", "mean", "softmax", "fc", "relu", "reshape", "add_const", "maxpool", "quantize", "logistic"]
             n_ops = draw(st.integers(1, 2))
